@@ -341,6 +341,119 @@ def check_job(job):
     orders = list(itertools.permutations(range(n)))
     for order in orders:
         out.append(dataflow_obligation(job, order))
+    if job["kind"] == "pair":
+        out.extend(corruption_obligations(job))
+    return out
+
+
+def _port_paths(spec, path=()):
+    """Paths (member names only) of all port members, with the member tuple."""
+    out = []
+    for i, (name, flow, m) in enumerate(spec[1]):
+        if m[0] == "port":
+            out.append((path + (i,), (name, flow, m)))
+        else:
+            out.extend(_port_paths(m[1], path + (i,)))
+    return out
+
+
+def _replace(spec, path, fn):
+    """A copy of spec with the member at index path replaced by fn(member) (None removes it)."""
+    i = path[0]
+    members = list(spec[1])
+    name, flow, m = members[i]
+    if len(path) == 1:
+        new = fn((name, flow, m))
+        if new is None:
+            del members[i]
+        else:
+            members[i] = new
+    else:
+        members[i] = (name, flow, ("sub", _replace(m[1], path[1:], fn), m[2]))
+    return ("sig", members)
+
+
+def _effective_flow(spec, path, flip=False):
+    name, flow, m = spec[1][path[0]]
+    eff = flow if not flip else ("in" if flow == "out" else "out")
+    if len(path) == 1:
+        return eff
+    return _effective_flow(m[1], path[1:], eff == "in")
+
+
+def corruption_obligations(job):
+    """Concrete: single-point corruptions of the second interface must make connect() raise ConnectionError.
+    (No value is quantified over here: this is an auxiliary structural test, not a solver claim.)"""
+    spec = job["spec"]
+    r = random.Random(hash(job["id"]) & 0xffff)
+    ports = [(p, mem) for p, mem in _port_paths(spec) if all(d > 0 for d in mem[2][3])]
+    # every enclosing array must be non-empty for the leaf to exist
+    out = []
+    if not ports:
+        return out
+    cases = []
+    for kind in ("width", "init", "width-both-inputs", "init-both-inputs", "two-outputs", "missing"):
+        path, (name, flow, m) = r.choice(ports)
+        shp = m[1]
+        if shp[0] not in ("u", "s"):
+            continue
+        w = shp[1]
+
+        def mut(member, kind=kind, path=path):
+            name, flow, m = member
+            _, shp, init, dims = m
+            eff_p = _effective_flow(spec, path)              # direction on p; q is the flip
+            if kind.startswith("width"):
+                shp2, init2 = (shp[0], shp[1] + 1), init
+            elif kind.startswith("init"):
+                cur = 0 if init is None else init
+                shp2, init2 = (shp[0], max(shp[1], 1)), (cur ^ 1 if shp[0] == "u" else (0 if cur else -1))
+                if shp[1] == 0:
+                    return "skip"
+            else:
+                shp2, init2 = shp, init
+            flow2 = flow
+            if kind.endswith("both-inputs"):
+                # q is flipped as a whole: give the leaf on q the declared flow that makes it an input there too
+                flow2 = flow if eff_p == "out" else ("out" if flow == "in" else "in")
+                if eff_p == "out":
+                    return "skip"                            # p drives this leaf: it cannot be an input on both sides
+            if kind == "two-outputs":
+                if eff_p != "out":
+                    return "skip"
+                flow2 = "out" if flow == "in" else "in"
+            if kind == "missing":
+                return None
+            return (name, flow2, ("port", shp2, init2, dims))
+        probe = mut((name, flow, m))
+        if probe == "skip":
+            continue
+        cases.append((kind, path, mut))
+    for kind, path, mut in cases:
+        base = {"id": f"{job['id']}-corrupt-{kind}", "kind": "ConnectionError on a corrupted tuple (concrete)", "nontrivial": False,
+                "program": job["text"] + f"  with the second interface corrupted: {kind} at member path {list(path)}",
+                "assertion": "connect() raises ConnectionError for a missing member, a width or initial-value mismatch, or two outputs on one leaf"}
+        try:
+            with warnings.catch_warnings():
+                warnings.simplefilter("ignore")
+                spec2 = _replace(spec, path, mut)
+                p_obj = build_sig(spec).create(path=("p",))
+                q_obj = build_sig(spec2).flip().create(path=("q",))
+                m_ = Module()
+                try:
+                    connect(m_, p_obj, q_obj)
+                    raised = None
+                except wiring.ConnectionError as ex:
+                    raised = ex
+        except Exception as ex:
+            out.append(dict(base, status=VIOLATION, detail=f"{base['program']}: raised {type(ex).__name__}: {str(ex)[:200]} instead of ConnectionError",
+                            signature={"kind": "corruption-exception", "what": kind}, replay={"job": job}))
+            continue
+        if raised is None:
+            out.append(dict(base, status=VIOLATION, detail=f"{base['program']}: connect() accepted the corrupted tuple", signature={"kind": "corruption-accepted", "what": kind},
+                            replay={"job": job}))
+        else:
+            out.append(dict(base, status=PROVED))
     return out
 
 
@@ -433,7 +546,8 @@ def main(tier, seed):
                      "amaranth.sim._pyrtl compiled code of the statements connect() adds"]
     rep.bounds = {"signatures": len(jobs), "depth": "<= 3", "members_per_level": "<= 3", "dimensions": "<= 2 (sizes 0..2)", "port_width": "0..4, signed, struct and enum shapes",
                   "interfaces": "2 (3 for all-output signatures), all argument orders",
-                  "outside": "ConnectionError diagnostics for corrupted tuples, constants as port values, component metadata / JSON schema: structural facts with no value to quantify over (see DESIGN.md)"}
+                  "outside": "constants as port values, component metadata / JSON schema: structural facts with no value to quantify over (see DESIGN.md); the ConnectionError clause is only "
+                             "sampled concretely (one corruption of each kind per pair), which is a test, not a solver claim"}
     rep.stubs = ["HSignalState", "if-converting interpreter"]
     rep.assumptions = []
     rep.rule = "hand-written corner signatures + seeded random signature trees; interface tuples by flipping signature or object; every argument order"
